@@ -28,7 +28,7 @@ package milenage
 //@ shape k 16
 //@ shape _rand 16
 //@ shape sqn 6
-//@ shape amf 2
+//@ requires amf: len(amf) >= 2 && len(amf) <= 16
 //@ shape mac_a 8
 //@ shape mac_s 8
 //@ maynil mac_a mac_s
